@@ -41,7 +41,9 @@ vars == <<row, phase, sni, clientCert, cqlSent>>
 (*            expired since must be rejected (expired_since_config), one that     *)
 (*            was not yet valid then and is now must be accepted                  *)
 (*            (valid_since_config)                                                *)
-Signers == {"int", "intexp", "direct", "other", "self"}
+\*            "lookalike": a chain that copies every name and number of a genuine chain (subject, issuer name, serial
+\*            number, names, validity) but none of its keys - issued by a private CA carrying the bundle CA's name
+Signers == {"int", "intexp", "direct", "other", "self", "lookalike"}
 SANs == {"bundleHost", "otherName", "sniName"}
 Validities == {"current", "expired", "notyet", "expired_since_config", "valid_since_config"}
 TimeShifted == {"expired_since_config", "valid_since_config"}
@@ -60,6 +62,7 @@ Accept(c) == /\ c # EmptyChain
 Why(c) ==
     IF c = EmptyChain THEN {"empty-chain"}
     ELSE (IF c.signer \in {"other", "self"} THEN {"signer=" \o c.signer} ELSE {})
+         \cup (IF c.signer = "lookalike" THEN {"signer=lookalike"} ELSE {})
          \cup (IF c.signer \in {"int", "intexp"} /\ ~c.extra THEN {"intermediate-missing"} ELSE {})
          \cup (IF c.signer = "intexp" THEN {"intermediate=expired"} ELSE {})
          \cup (IF c.san # "bundleHost" THEN {"name=" \o c.san} ELSE {})
@@ -75,11 +78,17 @@ ExpectedSNI(t) == CASE t = "metadata" -> "bundleHost"
                     [] t = "peer"     -> "hostId"
 
 \* for the metadata service the SNI *is* the bundle host: the sniName rows coincide with bundleHost
-Rows == {[target |-> t, chain |-> c, host |-> h, tls |-> v, draw |-> d] :
-            t \in Targets, c \in Chains \cup {EmptyChain}, h \in HostKinds, v \in TLSVersions, d \in 1..IdDraws}
+\* prior: what happened on the same resolver before the handshake of the row - nothing ("cold"), or a handshake with a
+\* genuine server that was accepted ("warm").  Acceptance is a function of the presented chain alone: Accept does not
+\* mention `prior`.
+Priors == {"cold", "warm"}
+Rows == {[target |-> t, chain |-> c, host |-> h, tls |-> v, draw |-> d, prior |-> p] :
+            t \in Targets, c \in Chains \cup {EmptyChain}, h \in HostKinds, v \in TLSVersions, d \in 1..IdDraws, p \in Priors}
 \* the time-shifted validities are only combined with otherwise acceptable chains presented by a node (an endpoint
 \* object with its TLS configuration exists between its creation and the handshake only for nodes)
 RealRows == {r \in Rows : /\ ~(r.target = "metadata" /\ r.chain.san = "sniName")
+                          \* warm rows: node targets, chains that are current and carry the right name (the interesting ones)
+                          /\ r.prior = "warm" => (r.target # "metadata" /\ r.chain # EmptyChain /\ r.chain.san = "bundleHost" /\ r.chain.validity = "current")
                           /\ (r.chain # EmptyChain /\ r.chain.validity \in TimeShifted) =>
                                 (r.target # "metadata" /\ ChainsToBundleCA(r.chain) /\ r.chain.san = "bundleHost")}
 
@@ -136,13 +145,14 @@ ASSUME ClassesSane ==
     /\ Accept([signer |-> "direct", extra |-> TRUE, san |-> "bundleHost", validity |-> "current"])
     /\ Accept([signer |-> "int", extra |-> TRUE, san |-> "bundleHost", validity |-> "current"])
     /\ Cardinality({c \in Chains : Accept(c)}) = 6
-    /\ Cardinality(Chains) = 150
+    /\ Cardinality(Chains) = 180
+    /\ \A c \in Chains : c.signer = "lookalike" => ~Accept(c)             \* copied names and numbers, foreign keys
     /\ \A c \in Chains \cup {EmptyChain} : Accept(c) <=> Why(c) = {}
 
 \* export: the observation expected at the end of every row
 Export ==
     Terminal => PrintT(<<"ROW", ToJson([target |-> row.target, chain |-> row.chain, host |-> row.host,
-                                         tls |-> row.tls, draw |-> row.draw,
+                                         tls |-> row.tls, draw |-> row.draw, prior |-> row.prior,
                                          expect |-> [accept |-> Accept(row.chain), why |-> Why(row.chain), sni |-> sni,
                                                      clientCert |-> clientCert, appData |-> cqlSent]])>>)
 =============================================================================
